@@ -242,6 +242,26 @@ def run(ctx, tier):
                     if _only_false(fn, dst):
                         continue
                 probs.append('the loop can be left early at %s' % fn.loc(src))
+        # no iteration skips its component: every path header -> back edge passes through the component call; the only
+        # accepted skip is the exact test `weights[i] == 0.0` in the two weighted sums (a zero term)
+        for L in fn.loops():
+            cbs = [bi for bi, _t in dyn if bi in L['body']]
+            if not cbs:
+                continue
+            allowed = set()
+            if m in ('distance', 'get_longest_valid_segment_length'):
+                def _wz(x, y):
+                    return all(n[0] == 'index' and any(c[0] == 'field' and c[2] == 'weights' for c in n[1]) for n in strip_clone(x)) and \
+                        bool(x) and all(n[0] == 'const' and n[1] in ('0.0f', '0f', '-0.0f') for n in y) and bool(y)
+                te, _fe, _sb = fn.bool_edges(lambda q: q[0] == 'binop' and q[1] == 'Eq' and (_wz(q[2], q[3]) or _wz(q[3], q[2])))
+                _te2, fe2, _sb2 = fn.bool_edges(lambda q: q[0] == 'binop' and q[1] == 'Ne' and (_wz(q[2], q[3]) or _wz(q[3], q[2])))
+                allowed = set(te) | set(fe2)
+            outside = frozenset(x for x in range(fn.nb) if x not in L['body'])
+            r = fn.reachable(L['header'], removed=frozenset(allowed), stop=outside | frozenset(cbs))
+            for (src, dst) in L['back_edges']:
+                if src in r and src not in cbs:
+                    probs.append('an iteration can skip the component operation (component i is left out of the result '
+                                 'for some inputs other than an exactly-zero weight)')
         if not dyn:
             probs.append('no component operation is called')
         r_index.inst('%s indexes subspace/components/weights consistently over all subspaces' % b.path, ok=not probs, site=b.loc(0))
